@@ -15,7 +15,10 @@ def drv_binary(ctx, race=False, tags=vlib.TAG, groups=("drv",), name="drv"):
     return _bins[key]
 
 
-def _run(ctx, binary, fam, behs, env=None, timeout=1200):
+def _run(ctx, binary, fam, behs, env=None, timeout=None):
+    if timeout is None:
+        steps = sum(len(b) for b in behs)
+        timeout = int(60 + steps * float(os.environ.get("VERIF_STEP_S", "0.004")))
     fin, fout = ctx.path("beh_%s.ndjson" % fam), ctx.path("res_%s.ndjson" % fam)
     vlib.write_ndjson(fin, behs)
     if os.path.exists(fout):
@@ -29,45 +32,59 @@ def _run(ctx, binary, fam, behs, env=None, timeout=1200):
     return rc, out, [r for r in res if not r.get("summary")], (summ[0] if summ else None)
 
 
-def _bisect_crash(ctx, binary, fam, behs, env):
-    lo, hi = 0, len(behs)
-    while hi - lo > 1:
-        mid = (lo + hi) // 2
-        rc, out, mm, summ = _run(ctx, binary, fam, behs[lo:mid], env)
-        if summ is None:
-            hi = mid
-        else:
-            lo = mid
-    return lo
+def _progress(ctx, fam):
+    try:
+        return int(open(ctx.path("res_%s.ndjson.progress" % fam)).read().strip())
+    except Exception:
+        return None
 
 
 def replay_family(ctx, fam, behs, env=None, race=False, exhaustive_depth=None, binary=None,
                   classify=None, groups=("drv",)):
-    """Replay behaviours; every mismatch Real != Req that reproduces in isolation is a violation."""
+    """Replay behaviours; every mismatch Real != Req that reproduces in isolation is a violation.
+    A crash or hang of the driver is attributed to the behaviour in progress (progress file),
+    re-run twice alone, and only then reported; the remaining behaviours are still replayed."""
     binary = binary or drv_binary(ctx, race=race, groups=groups)
-    rc, out, mms, summ = _run(ctx, binary, fam, behs, env)
-    if summ is None:
-        # crash of the harness process: isolate the behaviour, re-run it twice alone
-        idx = _bisect_crash(ctx, binary, fam, behs, env)
-        crashes = 0
-        last = ""
+    start, crashes, total = 0, 0, {"runs": 0, "behaviours": 0, "mismatches": 0, "worlds": 1}
+    all_mms = []
+    while start < len(behs):
+        part = behs[start:]
+        rc, out, mms, summ = _run(ctx, binary, fam, part, env)
+        for m in mms:
+            m["beh"] += start
+        all_mms += mms
+        if summ is not None:
+            for k in ("runs", "behaviours", "mismatches"):
+                total[k] += summ[k]
+            total["worlds"] = summ["worlds"]
+            break
+        idx = _progress(ctx, fam)
+        if idx is None:
+            raise vlib.Broken("driver died before its first behaviour (rc=%s): %s" % (rc, out[-1500:]))
+        bad = behs[start + idx]
+        n_bad, last = 0, ""
         for _ in range(2):
-            rc2, out2, mm2, s2 = _run(ctx, binary, fam, [behs[idx]], env)
+            rc2, out2, mm2, s2 = _run(ctx, binary, fam, [bad], env, timeout=60)
             if s2 is None:
-                crashes += 1
+                n_bad += 1
                 last = out2
-        if crashes == 2:
-            ro = {"family": fam, "kind": "crash", "behaviour": behs[idx], "tail": last[-1500:],
-                  "key": "crash", "op": "crash", "world": "?"}
-            if classify:
-                classify(ro)
-            ctx.violation("harness process crashed replaying one behaviour (reproduced twice): %s" % last[-300:], ro)
-            # continue with the rest
-            rest = behs[:idx] + behs[idx + 1:]
-            if rest:
-                replay_family(ctx, fam, rest, env, race, exhaustive_depth, binary, classify, groups)
-            return
-        raise vlib.Broken("driver died without reproducing (rc=%s): %s" % (rc, out[-1500:]))
+        if n_bad < 2:
+            raise vlib.Broken("driver died on behaviour %d but not when it is replayed alone (rc=%s): %s" % (
+                start + idx, rc, out[-1500:]))
+        ro = {"family": fam, "kind": "crash", "behaviour": bad, "tail": last[-1500:], "key": "crash",
+              "op": "crash", "world": "?", "ops": " ".join(s["op"] for s in bad)}
+        if classify:
+            classify(ro)
+        ctx.violation("driver crashed or hung replaying one behaviour (reproduced twice alone): %s ... %s" % (
+            [s["op"] for s in bad], last[-400:]), ro)
+        total["behaviours"] += idx
+        crashes += 1
+        start += idx + 1
+        if crashes >= 4:
+            ctx.note("stopped after %d crashing behaviours" % crashes)
+            break
+    summ = total
+    mms = all_mms
     ctx.cov["traces_validated_against_impl"] += summ["runs"]
     ctx.cov["evaluations"] += summ["runs"]
     nontrivial = 0
@@ -88,7 +105,7 @@ def replay_family(ctx, fam, behs, env=None, race=False, exhaustive_depth=None, b
         seen.add(sig)
         beh = behs[mm["beh"]]
         rc2, out2, mm2, s2 = _run(ctx, binary, fam, [beh], env)
-        rep = [m for m in mm2 if m["world"] == mm["world"] and m["key"] == mm["key"]]
+        rep = [m for m in mm2 if m["world"] == mm["world"] and m["step"] <= mm["step"]]
         if not rep:
             raise vlib.Broken("mismatch did not reproduce in isolation: %s" % json.dumps(mm))
         ro = {"family": fam, "kind": "mismatch", "world": mm["world"], "step": mm["step"], "op": mm["op"],
